@@ -23,6 +23,9 @@ func NewTraceWriter(path string) *TraceWriter {
 }
 
 func (t *TraceWriter) Emit(line M) {
+	if detOn {
+		line["det"] = DetSnapshot()
+	}
 	bz, err := json.Marshal(line)
 	must(err)
 	t.w.Write(bz)
